@@ -84,7 +84,16 @@ pub fn panic_only() -> bool {
     PANIC_ONLY.load(std::sync::atomic::Ordering::Relaxed)
 }
 
+/// C06 compares the bit-serial path with the real whole-word path, not with the frame specification (SWEEP_RELATIONAL=1)
+pub static RELATIONAL: std::sync::atomic::AtomicBool = std::sync::atomic::AtomicBool::new(false);
+pub fn relational() -> bool {
+    RELATIONAL.load(std::sync::atomic::Ordering::Relaxed)
+}
+
 fn main() {
+    if std::env::var("SWEEP_RELATIONAL").map(|v| v == "1").unwrap_or(false) {
+        RELATIONAL.store(true, std::sync::atomic::Ordering::Relaxed);
+    }
     if std::env::var("SWEEP_PANIC_ONLY").map(|v| v == "1").unwrap_or(false) {
         PANIC_ONLY.store(true, std::sync::atomic::Ordering::Relaxed);
     }
